@@ -158,6 +158,9 @@ class Ctx:
 
     def validate(self, w, r):
         """encoding validation: NUM evaluation of the executed terms vs the natively compiled wrapper"""
+        for t in list(r.out) + list(r.iout):
+            if t is not None and any(a.startswith('__garbage') for a in tm.free_args(t)):
+                return      # the result depends on never-written memory: nothing to validate (the obligations see the free variable)
         for j, xs in enumerate(self.random_inputs(w, self.nvalid)):
             ks = self.random_iinputs(w, j)
             try:
